@@ -103,6 +103,12 @@ func VerifC05Value() {
 	// text, which is what they trim) do not touch the value
 	out, err = vRender("{% assign a = 1 -%}\n{{ s }}x{{ s }}\n{%- assign b = 2 %}|{{ e -}} \n{{ s }}", Bindings{"s": s, "e": ""})
 	nd.Assert(err == nil && out == s+"x"+s+"|"+s, "value-untouched-by-distant-hyphens")
+	// a left hyphen right after text or a value that ends in a multi-byte character (last byte 0xA0 or
+	// 0x85, which are whitespace only as whole runes) removes nothing
+	mb := []string{"voil\u00e0", "\u00c5", "d\u00e9j\u00e0", "\u4e85", "x"}[nd.Choice(5)]
+	out, err = vRender(mb+"{{- 1 }}|{{ m }}{{- s }}|"+mb+"{%- if true %}y{% endif %}", Bindings{"s": s, "m": mb})
+	want := mb + "1|" + mb
+	nd.Assert(err == nil && len(out) >= len(want) && out[:len(want)] == want && out[len(out)-len(mb)-1:] == mb+"y", "multibyte-text-survives-a-left-hyphen")
 	nd.Reach("C05.value")
 }
 
